@@ -20,6 +20,11 @@ type H = simhdr.H
 
 var sizeKnob = []int{1, 2, 3, 5, 8, 64}
 
+// cache sizes start at 2: hashicorp's 2Q cache cannot be built with size 1
+// (its ghost list would have size 0), so NewStore rejects that configuration
+// with an error - there is no store to check.
+var cacheKnob = []int{2, 3, 5, 8, 64}
+
 // SW is world S: the real store.Store over a SimDisk.
 type SW struct {
 	S     *core.Sim
@@ -36,8 +41,8 @@ func newSW(s *core.Sim, park bool) *SW {
 	w := &SW{S: s}
 	w.P = store.Parameters{
 		WriteBatchSize: core.Pick(s.Tape, "batch", sizeKnob),
-		StoreCacheSize: core.Pick(s.Tape, "cache", sizeKnob),
-		IndexCacheSize: core.Pick(s.Tape, "icache", sizeKnob),
+		StoreCacheSize: core.Pick(s.Tape, "cache", cacheKnob),
+		IndexCacheSize: core.Pick(s.Tape, "icache", cacheKnob),
 	}
 	w.Flav = core.Pick(s.Tape, "flavour", []string{"plain", "ctx"})
 	first := core.Pick(s.Tape, "first", []uint64{1, 1, 7, 1000})
